@@ -2,7 +2,7 @@
 //@ loops: cert.loops
 //@ enforce: slist_split
 //@ replace: append
-//@ props: C10 C08
+//@ props: C10 C08 C09
 //@ expect: postcondition>=4 canary=4 loop_contract>=3
 #include "_unit.h"
 /* every string of 0..2^16-1 characters, every delimiter */
